@@ -410,6 +410,8 @@ def obligations : List Lean.Name := [
   ``ssh_log_is_device_output_only, ``ssh_sinks_independent, ``ssh_login_log_is_expected_output,
   ``ssh_program_independent, ``ssh_session_independent, ``password_sent_only_at_password_prompt,
   ``ssh_echo_device_independent, ``ssh_echo_session_independent, ``ssh_echo_at_password_prompt_counterexample,
+  ``ssh_change_phase_password_free, ``ssh_session_with_changes_guarded, ``ssh_session_with_changes_independent,
+  ``change_script_with_secret_counterexample,
   ``enable_without_prompt_counterexample, ``old_login_not_guarded,
   ``sinks_independent_counterexample, ``sinks_counterexample_line, ``sinks_independent_partial,
   ``sinks_independent_login_failure, ``sinks_independent,
